@@ -1,4 +1,4 @@
-\* intended design: 2 nodes, 4 seconds, 5 operations, 16 configurations (thresholds scaled to 1 / 2 / 3 s)
+\* intended design: 2 interchangeable nodes, 3 seconds, 4 operations, 8 configurations (thresholds scaled to 1 / 2 / 3 s)
 SPECIFICATION Spec
 CONSTANTS
   Unit = 1
@@ -6,7 +6,7 @@ CONSTANTS
   EstAge = 2
   VetAge = 3
   DaySecs = 2
-  Nodes = {1, 2}
+  Nodes = {n1, n2}
   MaxT = 3
   MaxOps = 4
   MaxRejoin = 2
@@ -15,7 +15,7 @@ CONSTANTS
   VetSet = {0, 3}
   BpdSet = {100}
   MaxbM = 150
-  Retentions = {0, 2}
+  Retentions = {1}
   AsImplemented_CategoryHardcoded = FALSE
   AsImplemented_UptimeSinceLastSeen = FALSE
   AsImplemented_UnknownReasonWhenPassing = FALSE
@@ -23,6 +23,7 @@ CONSTANTS
   AsImplemented_RelaxedByReplOnly = FALSE
   AsImplemented_HugeRetentionPanics = FALSE
   Variant_RejoinResetsAge = FALSE
+SYMMETRY Perms
 CONSTRAINT Bounded
 INVARIANTS TypeOK CategoryMonotone TrustMonotone TrustMatchesCategory ListsExact VerifyAgreesWithLists BasicAlwaysOpen VerifyFlagsAgree
            ReasonIffFails RelaxedAdmitsAll StatsAddUp RegisterIdempotent RejoinCounts RegisterNew DepartIdempotent DepartMarks
